@@ -1,2 +1,5 @@
 pub mod c01;
 pub mod c05;
+pub mod c07;
+pub mod c13;
+pub mod c03;
